@@ -37,6 +37,7 @@ type Program struct {
 	allFuncs  []*ssa.Function // all pint functions incl. anonymous and methods
 	funcByKey map[string]*ssa.Function
 	modCache  map[*ssa.Function][]string
+	freshCache map[*ssa.Function][]string
 	directCache map[*ssa.Function]*directInfo
 	externals map[string]int
 	loadErrors []string
@@ -56,7 +57,7 @@ func loadProgram(repo string, patterns []string, overlay map[string][]byte) (*Pr
 		return nil, err
 	}
 	p := &Program{repo: repo, pkgs: pkgs, ssaPkgs: map[string]*ssa.Package{}, byName: map[string]*ssa.Package{}, ss: newSorts(), heapSorts: map[string]string{},
-		funcByKey: map[string]*ssa.Function{}, modCache: map[*ssa.Function][]string{}, directCache: map[*ssa.Function]*directInfo{}, externals: map[string]int{}, addrTaken: map[*ssa.Function]bool{}}
+		funcByKey: map[string]*ssa.Function{}, modCache: map[*ssa.Function][]string{}, freshCache: map[*ssa.Function][]string{}, directCache: map[*ssa.Function]*directInfo{}, externals: map[string]int{}, addrTaken: map[*ssa.Function]bool{}}
 	packages.Visit(pkgs, nil, func(pk *packages.Package) {
 		if strings.HasPrefix(pk.PkgPath, pintPath) {
 			for _, e := range pk.Errors {
